@@ -47,6 +47,12 @@ func ruleCharAdvance(c *Ctx) {
 				return
 			}
 			b, k := splitAdd(ia.Index)
+			// a read of S[c:][i] is a read of S[c+i]
+			if rs, ok := ia.X.(*ssa.Slice); ok && rs.Low != nil {
+				if low, ok := constInt(rs.Low); ok && low > 0 {
+					k += low
+				}
+			}
 			loads = append(loads, load{ld, ia, b, k})
 		})
 		if len(loads) == 0 {
